@@ -139,6 +139,38 @@ func ruleExcludeCallers(c *eng.Ctx) {
 			inTraversal[h] = true
 		}
 	}
+	// a wrapper of the decision (nil test + call) whose every caller is the traversal is part of the traversal
+	callersOf := func(f *ssa.Function) []*ssa.Function {
+		var out []*ssa.Function
+		for _, g := range c.P.ModuleFuncs() {
+			if g.Pkg != f.Pkg || g == f {
+				continue
+			}
+			if len(eng.Calls(g, true, func(_ string, ci ssa.CallInstruction) bool { return eng.StaticCallee(ci) == f })) > 0 {
+				out = append(out, g)
+			}
+		}
+		return out
+	}
+	var okCaller func(f *ssa.Function, d int) bool
+	okCaller = func(f *ssa.Function, d int) bool {
+		if inTraversal[f] {
+			return true
+		}
+		if d >= 2 {
+			return false
+		}
+		cs := callersOf(f)
+		if len(cs) == 0 {
+			return false
+		}
+		for _, g := range cs {
+			if !okCaller(g, d+1) {
+				return false
+			}
+		}
+		return true
+	}
 	var bad []string
 	n := 0
 	for _, fn := range c.P.ModuleFuncs() {
@@ -147,7 +179,7 @@ func ruleExcludeCallers(c *eng.Ctx) {
 		}
 		for _, ci := range eng.Calls(fn, true, func(_ string, ci ssa.CallInstruction) bool { return eng.StaticCallee(ci) == target }) {
 			n++
-			if !inTraversal[fn] {
+			if !okCaller(fn, 0) {
 				bad = append(bad, eng.FuncName(fn)+" at "+c.P.Pos(ci.Pos()))
 			}
 		}
